@@ -136,6 +136,8 @@ func slotAlts() []slotAlt {
 		{label: "Ints", typ: "Ints", declA: "type Ints []int\n", local: true},
 		{label: "Grid", typ: "Grid", declA: "type Grid [2][2]int\n", local: true},
 		{label: "Flags", typ: "Flags", declB: "type Flags map[string]bool\n", local: true},
+		{label: "named-uint8", typ: "Tiny", declA: "type Tiny uint8\n", local: true},
+		{label: "named-int8", typ: "Small", declA: "type Small int8\n", local: true},
 		{label: "named-over-named", typ: "Cnt2", declA: "type Cnt2 Count\n", local: true},
 		{label: "alias-basic", typ: "AliasInt", declA: "type AliasInt = int\n", local: true},
 		{label: "alias-struct", typ: "AliasSquare", declA: "type AliasSquare = Square\n", local: true},
